@@ -11,6 +11,7 @@
 (define-fun sdesc ((h AH_Cursor) (s Slice)) Bool
   (forall ((j Int) (k Int)) (! (=> (and (<= 0 j) (< j k) (< k (slen_ s))) (> (pos (at_Cursor h s j)) (pos (at_Cursor h s k)))) :pattern ((at_Cursor h s j) (at_Cursor h s k)))))
 ;; membership with an explicit index witness
+;; heapfn: mem
 (declare-fun mem (AH_Cursor Slice Cursor) Bool)
 (declare-fun memw (AH_Cursor Slice Cursor) Int)
 (assert (forall ((h AH_Cursor) (s Slice) (n Cursor)) (! (=> (mem h s n) (and (<= 0 (memw h s n)) (< (memw h s n) (slen_ s)) (= (at_Cursor h s (memw h s n)) n))) :pattern ((mem h s n)))))
